@@ -71,8 +71,8 @@ std::unique_ptr<custom_recursive_mutex> create_custom_recursive_mutex() { return
 
 // ------------------------------------------------------------------------------------------
 // program description
-enum TOp { T_CALL = 0, T_CREATE, T_RELEASE, T_QSAT, T_QSATU, T_QCOMP, T_WATCH, T_KILL, T_UNWATCH, T_MOCKLIFE, NTOP };
-static const char* top_name[] = {"call", "create", "release", "is_satisfied", "is_saturated", "is_completed", "watch", "kill", "unwatch", "mocklife"};
+enum TOp { T_CALL = 0, T_CREATE, T_RELEASE, T_QSAT, T_QSATU, T_QCOMP, T_WATCH, T_KILL, T_UNWATCH, T_MOCKLIFE, T_SREL, T_SKILL, NTOP };
+static const char* top_name[] = {"call", "create", "release", "is_satisfied", "is_saturated", "is_completed", "watch", "kill", "unwatch", "mocklife", "srelease", "skill"};
 // create forms (compile time): how sequences and bounds are spelled
 enum Form { FM_PLAIN = 0, FM_SEQ_RT, FM_RT_SEQ, FM_SEQ2_RT, FM_SEQ_TIMES2, FM_SEQ_ONLY, NFORM };
 struct Op {
@@ -165,6 +165,12 @@ struct World {
   std::unique_ptr<trompeloeil::expectation> mon[MAXTH + 1];
   Mk1* own_mock[MAXTH + 1] = {};
   std::unique_ptr<trompeloeil::expectation> own_exp[MAXTH + 1];
+  // shared deathwatched objects: created (with two requirements each) before the workers start; object i is destroyed
+  // by thread i % n, its requirement j is released by thread (i + j + 1) % n - so a release can overlap the death
+  trompeloeil::deathwatched<Dw>* sdw[2] = {};
+  std::unique_ptr<trompeloeil::expectation> smon[2][2];
+  int smon_id[2][2] = {{0, 0}, {0, 0}};
+  int nthreads = 1;
 };
 static World* Wd = nullptr;
 
@@ -216,7 +222,7 @@ struct TModel {
   std::map<int, MExp> E;
   std::vector<int> active[NMOCK + MAXTH + 1][2], saturatedl[NMOCK + MAXTH + 1][2];
   std::vector<int> pend[NSEQ];
-  std::vector<int> dwreq[MAXTH + 1];
+  std::vector<int> dwreq[MAXTH + 3];
   static constexpr long CINF = 1L << 40;
 
   long cost(const MExp& e) const {
@@ -467,6 +473,25 @@ static void run_op(int tid, int opi, const Op& o, std::vector<int>& slot_id, int
         res = "unwatched";
         break;
       }
+      case T_SREL: {
+        int i = o.a % 2, j = o.b % 2;
+        if (tid >= 0 && tid != (i + j + 1) % Wd->nthreads) { res = "skip"; break; }
+        if (!Wd->smon[i][j]) { res = "skip"; break; }
+        ev(E_MONDTOR, Wd->smon_id[i][j]);
+        Wd->smon[i][j].reset();
+        res = "unwatched";
+        break;
+      }
+      case T_SKILL: {
+        int i = o.a % 2;
+        if (tid >= 0 && tid != i % Wd->nthreads) { res = "skip"; break; }
+        if (!Wd->sdw[i]) { res = "skip"; break; }
+        ev(E_KILL, 0, MAXTH + 1 + i);
+        delete Wd->sdw[i];
+        Wd->sdw[i] = nullptr;
+        res = "killed";
+        break;
+      }
       case T_MOCKLIFE: {
         // a mock object private to this thread: create, put an expectation on it, maybe call, destroy
         int mi = NMOCK + oi;
@@ -535,7 +560,9 @@ static std::string expected_observation(const OpRec& r, const std::vector<std::s
     case T_QSAT: case T_QSATU: res = r.events.empty() ? "skip" : evres[0]; break;
     case T_QCOMP: res = evres[0]; break;
     case T_WATCH: res = r.events.empty() ? "skip" : "watched"; break;
+    case T_SKILL:
     case T_KILL: res = r.events.empty() ? "skip" : "killed"; if (!r.events.empty() && !evres[0].empty()) add_reports(evres[0]); break;
+    case T_SREL:
     case T_UNWATCH: res = r.events.empty() ? "skip" : "unwatched"; if (!r.events.empty() && !evres[0].empty()) add_reports(evres[0]); break;
     case T_MOCKLIFE: {
       if (!r.events.empty() && r.events.back().type == E_HOOK) { res = "own-created"; break; }
@@ -667,6 +694,24 @@ static RunResult run_program(const Program& p, bool sched_mode) {
   auto& prec = recs[static_cast<size_t>(p.nthreads)];
   prec.resize(p.prologue.size());
   for (size_t i = 0; i < p.prologue.size(); ++i) run_op(-1, static_cast<int>(i), p.prologue[i], slot_id, mon_ids[MAXTH], own_ids[MAXTH], prec[i], 9000);
+  // shared deathwatched objects and their requirements (main thread; recorded like prologue operations)
+  w.nthreads = p.nthreads;
+  for (int i = 0; i < 2; ++i) {
+    w.sdw[i] = new trompeloeil::deathwatched<Dw>();
+    for (int j = 0; j < 2; ++j) {
+      OpRec r;
+      r.tid = -1; r.opi = 50 + 2 * i + j; r.op = Op{T_WATCH, 0, 0};
+      int id = 8000 + 2 * i + j;
+      r.events.push_back(Ev{E_MONLINK, -1, r.opi, id, MAXTH + 1 + i, 0, 0, 0, 0});
+      shim::tickets = &r.tickets;
+      auto& obj = *w.sdw[i];
+      w.smon[i][j] = NAMED_REQUIRE_DESTRUCTION(obj);
+      shim::tickets = nullptr;
+      w.smon_id[i][j] = id;
+      r.observed = "watched";
+      prec.push_back(r);
+    }
+  }
   std::atomic<int> go{0};
   shim::sched_on = sched_mode;
   for (int t = 0; t < shim::MAXT; ++t) shim::st[t] = shim::IDLE;
@@ -731,6 +776,13 @@ static RunResult run_program(const Program& p, bool sched_mode) {
       if (w.mon[oi]) epi(t, Op{T_UNWATCH}, mon_ids[static_cast<size_t>(oi)], own_ids[static_cast<size_t>(oi)]);
       if (w.dw[oi]) epi(t, Op{T_KILL}, mon_ids[static_cast<size_t>(oi)], own_ids[static_cast<size_t>(oi)]);
       if (w.own_mock[oi]) epi(t, Op{T_MOCKLIFE, 0, 0}, mon_ids[static_cast<size_t>(oi)], own_ids[static_cast<size_t>(oi)]);
+    }
+  }
+  {
+    int opi = 200;
+    for (int i = 0; i < 2; ++i) {
+      for (int j = 0; j < 2; ++j) if (w.smon[i][j]) { OpRec r; run_op(-1, opi++, Op{T_SREL, i, j}, slot_id, mon_ids[MAXTH], own_ids[MAXTH], r, 0); r.tid = -1; all.push_back(r); }
+      if (w.sdw[i]) { OpRec r; run_op(-1, opi++, Op{T_SKILL, i}, slot_id, mon_ids[MAXTH], own_ids[MAXTH], r, 0); r.tid = -1; all.push_back(r); }
     }
   }
   for (int i = 0; i < NMOCK; ++i) delete w.mock[i];
@@ -816,7 +868,9 @@ static rc::Gen<Op> gen_op(bool prologue) {
     else if (k < 89) o.kind = T_WATCH;
     else if (k < 92) o.kind = T_KILL;
     else if (k < 94) o.kind = T_UNWATCH;
-    else o.kind = T_MOCKLIFE;
+    else if (k < 96) o.kind = T_MOCKLIFE;
+    else if (k < 98) o.kind = T_SREL;
+    else o.kind = T_SKILL;
     auto small = [](int n) { return *rc::gen::resize(100, rc::gen::inRange(0, n)); };
     switch (o.kind) {
       case T_CALL: o.a = small(4) ? 0 : 1; o.b = small(4) ? 0 : 1; o.c = small(3); break;
@@ -825,6 +879,8 @@ static rc::Gen<Op> gen_op(bool prologue) {
       case T_QCOMP: o.a = small(3) ? 0 : 1; break;
       case T_WATCH: o.a = small(2); o.b = small(3) ? 0 : 1; break;
       case T_MOCKLIFE: o.a = small(8); o.b = small(2); break;
+      case T_SREL: o.a = small(2); o.b = small(2); break;
+      case T_SKILL: o.a = small(2); break;
       default: break;
     }
     return o;
@@ -845,6 +901,18 @@ static rc::Gen<Program> gen_program(int max_threads, int max_ops) {
       auto y = *rc::gen::container<std::vector<int>>(rc::gen::resize(100, rc::gen::inRange(0, 4)));
       if (y.size() > 24) y.resize(24);
       p.yields.push_back(y);
+    }
+    // half of the programs: one shared deathwatched object is destroyed by its owner thread while its two
+    // requirements are released by (possibly) other threads, at generated positions
+    if (*rc::gen::resize(100, rc::gen::inRange(0, 2)) == 1) {
+      int i = *rc::gen::resize(100, rc::gen::inRange(0, 2));
+      auto put = [&](int t, Op o) {
+        auto& v = p.ops[static_cast<size_t>(t)];
+        size_t pos = static_cast<size_t>(*rc::gen::resize(100, rc::gen::inRange(0, static_cast<int>(v.size()) + 1)));
+        v.insert(v.begin() + static_cast<long>(pos), o);
+      };
+      put(i % p.nthreads, Op{T_SKILL, i});
+      for (int j = 0; j < 2; ++j) put((i + j + 1) % p.nthreads, Op{T_SREL, i, j});
     }
     p.schedule = *rc::gen::container<std::vector<int>>(rc::gen::resize(100, rc::gen::inRange(0, 8)));
     if (p.schedule.size() > 64) p.schedule.resize(64);
